@@ -45,3 +45,465 @@ Proof.
   intros chain r U. pose proof (run_mem_eq chain) as M. destruct (run_plain_eq chain) as (A & B & C & D).
   destruct r; cbn in U; try discriminate; unfold do_read; rewrite ?M, ?A, ?C, ?D; reflexivity.
 Qed.
+
+(* ================================================================ refinement to the chain specification *)
+From MV Require Import C26.Keys.
+
+(* ---------------------------------------------------------------- closed forms: the database after a chain, newest block first *)
+
+Fixpoint mem_of (l : list block) : mem :=
+  match l with [] => mem0 | b :: r => update_last (mem_of r) b end.
+
+Fixpoint tab_of (be : backend) (l : list block) : tables :=
+  match l with [] => tables0 | b :: r => merge_tables be (tab_of be r) b end.
+
+Lemma run_closed : forall be chain, run be chain = mkDb (mem_of (rev chain)) (tab_of be (rev chain)).
+Proof.
+  intros be chain. induction chain as [|b r IH] using rev_ind.
+  - reflexivity.
+  - unfold run in *. rewrite fold_left_app, IH. cbn [fold_left]. rewrite rev_app_distr. reflexivity.
+Qed.
+
+(* ---------------------------------------------------------------- strictly decreasing lists *)
+
+Fixpoint desc (l : list Z) : Prop :=
+  match l with [] => True | x :: r => (forall y, In y r -> y < x) /\ desc r end.
+
+Fixpoint bestZ (P : Z -> bool) (l : list Z) : option Z :=
+  match l with
+  | [] => None
+  | k :: r =>
+      match bestZ P r with
+      | None => if P k then Some k else None
+      | Some m => if P k && Z.leb m k then Some k else Some m
+      end
+  end.
+
+Lemma bestZ_in : forall P l x, bestZ P l = Some x -> In x l /\ P x = true.
+Proof.
+  induction l as [|k r IH]; cbn; intros x H; try discriminate.
+  destruct (bestZ P r) as [m|] eqn:B.
+  - destruct (P k) eqn:Pk; cbn in H.
+    + destruct (m <=? k); inversion H; subst; auto. destruct (IH _ eq_refl); auto.
+    + inversion H; subst. destruct (IH _ eq_refl); auto.
+  - destruct (P k) eqn:Pk; inversion H; subst; auto.
+Qed.
+
+Lemma bestZ_none : forall P l, bestZ P l = None -> forall x, In x l -> P x = false.
+Proof.
+  induction l as [|k r IH]; cbn; intros H x I; [contradiction|].
+  destruct (bestZ P r) as [m|] eqn:B.
+  - destruct (P k && (m <=? k)); discriminate.
+  - destruct (P k) eqn:Pk; try discriminate. destruct I as [->|I]; auto.
+Qed.
+
+(* in a strictly decreasing list the greatest element satisfying P is the first one *)
+Lemma bestZ_desc : forall P l, desc l -> bestZ P l = find P l.
+Proof.
+  induction l as [|k r IH]; cbn; intros D; auto. destruct D as [D1 D2]. rewrite (IH D2).
+  destruct (find P r) as [m|] eqn:F.
+  - apply find_some in F. destruct F as [I Pm]. specialize (D1 m I).
+    destruct (P k); cbn; auto. replace (m <=? k) with true by (symmetry; apply Z.leb_le; lia). reflexivity.
+  - destruct (P k); reflexivity.
+Qed.
+
+Lemma bestk_map : forall (enc : Z -> key) inr P (l : list Z),
+  (forall a, In a l -> inr (enc a) = P a) ->
+  (forall a c, In a l -> In c l -> lex_le (enc a) (enc c) = (a <=? c)) ->
+  bestk inr (map enc l) = option_map enc (bestZ P l).
+Proof.
+  induction l as [|k r IH]; intros H1 H2; cbn; auto.
+  rewrite IH; [ | intros; apply H1; cbn; auto | intros; apply H2; cbn; auto ].
+  destruct (bestZ P r) as [m|] eqn:B; cbn.
+  - rewrite H1 by (cbn; auto). destruct (bestZ_in _ _ _ B) as [Im _].
+    rewrite H2 by (cbn; auto). destruct (P k && (m <=? k)); reflexivity.
+  - rewrite H1 by (cbn; auto). destruct (P k); reflexivity.
+Qed.
+
+Lemma assocp_map : forall {E A} (enc : Z -> key) (f : E -> Z) (g : E -> A) (l : list E) x,
+  (forall e, In e l -> key_eqb (enc x) (enc (f e)) = (x =? f e)) ->
+  assocp (enc x) (map (fun e => (enc (f e), g e)) l) = option_map g (find (fun e => x =? f e) l).
+Proof.
+  induction l as [|e r IH]; intros x H; cbn; auto.
+  rewrite H by (cbn; auto). destruct (x =? f e); cbn; auto. apply IH. intros; apply H; cbn; auto.
+Qed.
+
+Lemma find_first : forall {E} (f : E -> Z) P (l : list E) x, find P (map f l) = Some x ->
+  find (fun e => x =? f e) l = find (fun e => P (f e)) l.
+Proof.
+  induction l as [|e r IH]; cbn; intros x H; auto.
+  destruct (P (f e)) eqn:Pe.
+  - inversion H; subst. rewrite Z.eqb_refl. reflexivity.
+  - assert (x <> f e). { intros ->. apply find_some in H. destruct H as [_ Px]. congruence. }
+    replace (x =? f e) with false by (symmetry; apply Z.eqb_neq; auto). auto.
+Qed.
+
+Lemma find_none_map : forall {E} (f : E -> Z) P (l : list E), find P (map f l) = None -> find (fun e => P (f e)) l = None.
+Proof.
+  induction l as [|e r IH]; cbn; intros H; auto. destruct (P (f e)); [discriminate|auto].
+Qed.
+
+(* the ordered query through an order-preserving, injective key encoding = "first element of the decreasing list
+   that satisfies P" *)
+Lemma get_best_spec : forall {E} (enc : Z -> key) (f : E -> Z) inr P (l : list E),
+  desc (map f l) ->
+  (forall e, In e l -> inr (enc (f e)) = P (f e)) ->
+  (forall a c, In a l -> In c l -> lex_le (enc (f a)) (enc (f c)) = (f a <=? f c)) ->
+  (forall a c, In a l -> In c l -> key_eqb (enc (f a)) (enc (f c)) = (f a =? f c)) ->
+  get_bestp inr (map enc (map f l)) (map (fun e => (enc (f e), e)) l) = find (fun e => P (f e)) l.
+Proof.
+  intros E enc f inr P l D H1 H2 H3. unfold get_bestp.
+  rewrite (bestk_map enc inr P).
+  - rewrite (bestZ_desc _ _ D). destruct (find P (map f l)) as [x|] eqn:F; cbn.
+    + pose proof (find_some _ _ F) as [Ix _]. apply in_map_iff in Ix. destruct Ix as (e0 & <- & I0).
+      rewrite (assocp_map enc f (fun e => e)) by (intros; apply H3; auto).
+      rewrite (find_first f P l _ F). destruct (find _ l); reflexivity.
+    + symmetry. apply find_none_map. auto.
+  - intros a Ia. apply in_map_iff in Ia. destruct Ia as (e & <- & I). auto.
+  - intros a c Ia Ic. apply in_map_iff in Ia, Ic. destruct Ia as (e1 & <- & I1). destruct Ic as (e2 & <- & I2). auto.
+Qed.
+
+(* ---------------------------------------------------------------- valid chains *)
+
+(* heights and suffrage heights are non-negative int64, strictly increasing along the chain *)
+Record valid (newest : list block) : Prop := mkValid {
+  v_desc : desc (map b_height newest);
+  v_range : forall b, In b newest -> 0 <= b_height b < max_height;
+  v_sdesc : desc (map p_sh (proofs_of newest));
+  v_srange : forall p, In p (proofs_of newest) -> 0 <= p_sh p < max_height
+}.
+
+Lemma valid_tail : forall b r, valid (b :: r) -> valid r.
+Proof.
+  intros b r [D R S SR]. constructor.
+  - cbn in D. tauto.
+  - intros; apply R; cbn; auto.
+  - unfold proofs_of in *. cbn [flat_map] in S. destruct (proof_of b); cbn in S; tauto.
+  - intros p I. apply SR. unfold proofs_of in *. cbn [flat_map]. apply in_or_app. auto.
+Qed.
+
+Lemma proofs_heights : forall l p, In p (proofs_of l) -> exists b, In b l /\ p_bh p = b_height b /\ proof_of b = Some p.
+Proof.
+  induction l as [|b r IH]; cbn; intros p I; [contradiction|].
+  apply in_app_or in I. destruct I as [I|I].
+  - destruct (proof_of b) as [q|] eqn:Q; cbn in I; [|contradiction]. destruct I as [<-|[]].
+    exists b. split; auto. split; auto. unfold proof_of in Q. destruct (b_proof b) as [[sh v]|]; inversion Q. reflexivity.
+  - destruct (IH p I) as (b' & I' & E). exists b'. auto.
+Qed.
+
+Lemma proofs_desc : forall l, desc (map b_height l) -> desc (map p_bh (proofs_of l)).
+Proof.
+  induction l as [|b r IH]; cbn; intros D; auto. destruct D as [D1 D2].
+  unfold proofs_of in *. cbn [flat_map]. destruct (proof_of b) as [q|] eqn:Q; cbn; auto. split; auto.
+  - intros y Iy. apply in_map_iff in Iy. destruct Iy as (p & <- & Ip).
+    destruct (proofs_heights r p Ip) as (b' & I' & E & _). rewrite E.
+    replace (p_bh q) with (b_height b).
+    + apply D1. apply in_map. auto.
+    + unfold proof_of in Q. destruct (b_proof b) as [[sh v]|]; inversion Q. reflexivity.
+Qed.
+
+(* ---------------------------------------------------------------- closed forms of the tables *)
+
+Definition e_bmp (be : backend) (b : block) := (k_bmp be (b_height b), (b_height b, b_map b)).
+
+Lemma tab_bmp : forall be l, t_bmp (tab_of be l) = map (e_bmp be) l.
+Proof. induction l as [|b r IH]; cbn; auto. rewrite IH. reflexivity. Qed.
+
+Lemma tab_sup : forall be l, t_sup (tab_of be l) = map (fun p => (k_sup be (p_sh p), p)) (proofs_of l).
+Proof.
+  induction l as [|b r IH]; cbn; auto. rewrite IH. unfold proofs_of. cbn [flat_map]. unfold proof_of.
+  destruct (b_proof b) as [[sh v]|]; reflexivity.
+Qed.
+
+Lemma tab_sph : forall be l, t_sph (tab_of be l) = map (fun p => (k_sph be (p_bh p), p)) (proofs_of l).
+Proof.
+  induction l as [|b r IH]; cbn; auto. rewrite IH. unfold proofs_of. cbn [flat_map]. unfold proof_of.
+  destruct (b_proof b) as [[sh v]|]; reflexivity.
+Qed.
+
+Lemma tab_zbmp : forall l, z_bmp (tab_of Redis l) = map (k_bmp Redis) (map b_height l).
+Proof. induction l as [|b r IH]; cbn; auto. rewrite IH. reflexivity. Qed.
+
+Lemma tab_zsph : forall l, z_sph (tab_of Redis l) = map (k_sph Redis) (map p_bh (proofs_of l)).
+Proof.
+  induction l as [|b r IH]; cbn; auto. rewrite IH. unfold proofs_of. cbn [flat_map]. unfold proof_of.
+  destruct (b_proof b) as [[sh v]|]; reflexivity.
+Qed.
+
+Lemma tab_pol : forall be l, t_pol (tab_of be l) = first_some b_policy l.
+Proof. induction l as [|b r IH]; cbn; auto. rewrite IH. destruct (b_policy b); reflexivity. Qed.
+
+Lemma tab_kno : forall be l, t_kno (tab_of be l) = flat_map b_known l.
+Proof. induction l as [|b r IH]; cbn; auto. rewrite IH. reflexivity. Qed.
+
+Lemma tab_iso : forall be l, t_iso (tab_of be l) = flat_map b_instate l.
+Proof. induction l as [|b r IH]; cbn; auto. rewrite IH. reflexivity. Qed.
+
+Lemma put_states_app : forall sts t,
+  put_states t sts = rev (map (fun s : N * Z * val => let '(k, h, v) := s in (k, (h, v))) sts) ++ t.
+Proof.
+  unfold put_states. induction sts as [|s r IH]; intros t; cbn; auto.
+  rewrite IH. destruct s as [[k h] v]. rewrite <- app_assoc. reflexivity.
+Qed.
+
+Lemma assocN_app : forall {A} k (a c : list (N * A)),
+  assocN k (a ++ c) = match assocN k a with Some v => Some v | None => assocN k c end.
+Proof.
+  induction a as [|[k' v] r IH]; intros c; cbn; auto. destruct (N.eqb k k'); auto.
+Qed.
+
+Lemma tab_stt : forall be l k,
+  option_map snd (assocN k (t_stt (tab_of be l))) = first_some (fun b => option_map snd (assocN k (state_pairs b))) l.
+Proof.
+  induction l as [|b r IH]; intros k; cbn; auto.
+  rewrite put_states_app, assocN_app. fold (state_pairs b).
+  destruct (assocN k (state_pairs b)); cbn; auto.
+Qed.
+
+(* ---------------------------------------------------------------- closed form of the in-memory part *)
+
+Lemma mem_last : forall l, valid l ->
+  m_last (mem_of l) = option_map (fun b => (b_height b, b_map b)) (hd_error l)
+  /\ m_proof (mem_of l) = hd_error (proofs_of l)
+  /\ m_policy (mem_of l) = first_some b_policy l.
+Proof.
+  induction l as [|b r IH]; intros V; cbn; auto.
+  destruct (IH (valid_tail _ _ V)) as (A & B & C).
+  unfold update_last. rewrite A.
+  assert (N : match option_map (fun b0 => (b_height b0, b_map b0)) (hd_error r) with
+              | Some (h, _) => h <? b_height b | None => true end = true).
+  { destruct r as [|b' r']; cbn; auto. apply Z.ltb_lt. destruct V as [D _ _ _]. cbn in D. apply D. auto. }
+  rewrite N. cbn. rewrite B, C. split; [reflexivity | split].
+  - unfold proofs_of. cbn [flat_map]. unfold proof_of. destruct (b_proof b) as [[sh v]|]; reflexivity.
+  - destruct (b_policy b); reflexivity.
+Qed.
+
+(* ---------------------------------------------------------------- keys of the two backends on the domain *)
+
+Definition enc_le (enc : Z -> key) : Prop :=
+  forall a c, 0 <= a <= max_height -> 0 <= c <= max_height -> lex_le (enc a) (enc c) = (a <=? c).
+Definition enc_eq (enc : Z -> key) : Prop :=
+  forall a c, -1 <= a < max_height -> 0 <= c < max_height -> key_eqb (enc a) (enc c) = (a =? c).
+
+Lemma app_eqb : forall p a c, key_eqb (p ++ a) (p ++ c) = key_eqb a c.
+Proof. induction p as [|x p IH]; intros; cbn; auto. rewrite N.eqb_refl. cbn. apply IH. Qed.
+
+Lemma k_le : forall be, enc_le (k_bmp be) /\ enc_le (k_sup be) /\ enc_le (k_sph be).
+Proof.
+  intros [|]; repeat split; intros a c Ha Hc; unfold k_bmp, k_sup, k_sph, rkey;
+    rewrite ?lex_le_app, ?lex_le_cons; auto using be8_le, dec21_le.
+Qed.
+
+Lemma k_eq : forall be, enc_eq (k_bmp be) /\ enc_eq (k_sup be) /\ enc_eq (k_sph be).
+Proof.
+  assert (M : max_height = 2 ^ 63) by reflexivity.
+  intros [|]; repeat split; intros a c Ha Hc; unfold k_bmp, k_sup, k_sph, rkey; rewrite ?app_eqb; cbn [key_eqb];
+    rewrite ?N.eqb_refl; cbn [andb]; try (apply be8_eqb; lia); try (apply dec21_eqb; lia).
+Qed.
+
+(* ---------------------------------------------------------------- the keyed reads *)
+
+Lemma read_map : forall be l h, valid l -> -1 <= h < max_height ->
+  option_map snd (assocp (k_bmp be h) (t_bmp (tab_of be l))) = option_map b_map (find (fun b => h =? b_height b) l).
+Proof.
+  intros be l h V Hh. rewrite tab_bmp. unfold e_bmp.
+  rewrite (assocp_map (k_bmp be) b_height (fun b => (b_height b, b_map b))).
+  - destruct (find _ l); reflexivity.
+  - intros e I. destruct (k_eq be) as (E & _ & _). apply E; auto. apply (v_range _ V); auto.
+Qed.
+
+Lemma read_proof : forall be l sh, valid l -> -1 <= sh < max_height ->
+  assocp (k_sup be sh) (t_sup (tab_of be l)) = find (fun p => sh =? p_sh p) (proofs_of l).
+Proof.
+  intros be l sh V Hh. rewrite tab_sup.
+  rewrite (assocp_map (k_sup be) p_sh (fun p => p)).
+  - destruct (find _ _); reflexivity.
+  - intros e I. destruct (k_eq be) as (_ & E & _). apply E; auto. apply (v_srange _ V); auto.
+Qed.
+
+Lemma proofs_bh_range : forall l p, valid l -> In p (proofs_of l) -> 0 <= p_bh p < max_height.
+Proof.
+  intros l p V I. destruct (proofs_heights l p I) as (b & Ib & E & _). rewrite E. apply (v_range _ V); auto.
+Qed.
+
+(* "greatest stored block height not above h" on the suffrage-proofs-by-block-height table *)
+Lemma read_proof_by_block : forall be l h, valid l -> -1 <= h < max_height ->
+  match be with
+  | Leveldb => ldb_last_below (k_sph Leveldb (h + 1)) (t_sph (tab_of Leveldb l))
+  | Redis => rds_last (z_sph (tab_of Redis l)) (k_sph Redis 0) (k_sph Redis h) (t_sph (tab_of Redis l))
+  end = find (fun p => p_bh p <=? h) (proofs_of l).
+Proof.
+  intros be l h V Hh.
+  assert (R : forall p, In p (proofs_of l) -> 0 <= p_bh p < max_height) by (intros; eapply proofs_bh_range; eauto).
+  assert (D : desc (map p_bh (proofs_of l))) by (apply proofs_desc, (v_desc _ V)).
+  destruct (k_le be) as (_ & _ & LE). destruct (k_eq be) as (_ & _ & EQ).
+  assert (M : 0 < max_height) by (unfold max_height; lia).
+  destruct be.
+  - unfold ldb_last_below. rewrite tab_sph, map_map. cbn [fst].
+    rewrite <- (map_map p_bh (k_sph Leveldb)).
+    apply (get_best_spec (k_sph Leveldb) p_bh _ (fun x => x <=? h)); auto.
+    + intros e I. unfold lex_lt. rewrite LE by (specialize (R e I); lia).
+      destruct (p_bh e <=? h) eqn:C; [apply Z.leb_le in C | apply Z.leb_gt in C].
+      * apply negb_true_iff. apply Z.leb_gt. lia.
+      * apply negb_false_iff. apply Z.leb_le. lia.
+    + intros a c Ia Ic. apply LE; [specialize (R a Ia) | specialize (R c Ic)]; lia.
+    + intros a c Ia Ic. apply EQ; [specialize (R a Ia) | specialize (R c Ic)]; lia.
+  - unfold rds_last. rewrite tab_sph, tab_zsph.
+    apply (get_best_spec (k_sph Redis) p_bh _ (fun x => x <=? h)); auto.
+    + intros e I. specialize (R e I). rewrite LE by lia.
+      replace (0 <=? p_bh e) with true by (symmetry; apply Z.leb_le; lia). cbn [andb].
+      destruct (Z_lt_le_dec h 0) as [N|P].
+      * unfold k_sph, rkey. rewrite lex_le_app, lex_le_cons. rewrite dec21_le_neg by lia.
+        symmetry. apply Z.leb_gt. lia.
+      * apply LE; lia.
+    + intros a c Ia Ic. apply LE; [specialize (R a Ia) | specialize (R c Ic)]; lia.
+    + intros a c Ia Ic. apply EQ; [specialize (R a Ia) | specialize (R c Ic)]; lia.
+Qed.
+
+(* ---------------------------------------------------------------- refinement *)
+
+Definition read_in_domain (r : read) : Prop :=
+  match r with
+  | RMap h | RProof h | RProofByBlock h => -1 <= h < max_height
+  | _ => True
+  end.
+
+Lemma hd_find : forall {E} (P : E -> bool) (l : list E) x, hd_error l = Some x -> P x = true -> find P l = Some x.
+Proof. intros E P [|y r] x H Px; cbn in *; inversion H; subst. rewrite Px. reflexivity. Qed.
+
+Theorem closed_refines : forall be l r, valid l -> read_in_domain r ->
+  do_read be (mkDb (mem_of l) (tab_of be l)) r = spec_read (rev l) r.
+Proof.
+  intros be l r V Dm. unfold spec_read. rewrite rev_involutive.
+  destruct (mem_last l V) as (ML & MP & MPol).
+  destruct r; unfold do_read; cbn [d_mem d_tab].
+  - rewrite ML. destruct (hd_error l); reflexivity.
+  - rewrite MP. destruct (hd_error (proofs_of l)); reflexivity.
+  - rewrite MPol. reflexivity.
+  - (* RMap *) cbn in Dm. rewrite ML. destruct l as [|lb l']; cbn [hd_error option_map]; auto.
+    rewrite read_map by auto. cbn [find]. rewrite (Z.eqb_sym h). destruct (b_height lb =? h) eqn:E.
+    + reflexivity.
+    + reflexivity.
+  - (* RProof *) cbn in Dm. rewrite MP.
+    destruct (hd_error (proofs_of l)) as [[[lsh lbh] lv]|] eqn:H.
+    + destruct (sh =? lsh) eqn:E.
+      * apply Z.eqb_eq in E. subst. rewrite (hd_find _ _ _ H) by (cbn; apply Z.eqb_refl). reflexivity.
+      * rewrite read_proof by auto. reflexivity.
+    + rewrite read_proof by auto. reflexivity.
+  - (* RProofByBlock *) cbn in Dm. rewrite ML, MP. destruct l as [|lb l']; cbn [hd_error option_map]; auto.
+    destruct (b_height lb <? h); auto.
+    destruct (hd_error (proofs_of (lb :: l'))) as [[[lsh lbh] lv]|] eqn:H.
+    + destruct (lbh <=? h) eqn:E.
+      * rewrite (hd_find _ _ _ H) by (cbn; auto). reflexivity.
+      * pose proof (read_proof_by_block be (lb :: l') h V Dm) as Q. destruct be; rewrite Q; reflexivity.
+    + destruct (proofs_of (lb :: l')); [reflexivity | discriminate].
+  - (* RState *) rewrite tab_stt. reflexivity.
+  - rewrite tab_kno. reflexivity.
+  - rewrite tab_iso. reflexivity.
+Qed.
+
+Theorem read_refines : forall be chain r, valid (rev chain) -> read_in_domain r ->
+  do_read be (run be chain) r = spec_read chain r.
+Proof.
+  intros be chain r V D. rewrite run_closed. rewrite (closed_refines be (rev chain) r V D), rev_involutive. reflexivity.
+Qed.
+
+Theorem backends_agree : forall chain r, valid (rev chain) -> read_in_domain r ->
+  do_read Redis (run Redis chain) r = do_read Leveldb (run Leveldb chain) r.
+Proof. intros. rewrite !read_refines; auto. Qed.
+
+(* ---------------------------------------------------------------- reopening *)
+
+Lemma load_map_closed : forall be l, valid l ->
+  load_last_map be (tab_of be l) = option_map (fun b => (b_height b, b_map b)) (hd_error l).
+Proof.
+  intros be l V.
+  assert (R : forall b, In b l -> 0 <= b_height b < max_height) by apply (v_range _ V).
+  destruct (k_le be) as (LE & _ & _). destruct (k_eq be) as (EQ & _ & _).
+  assert (G : forall inr, (forall e, In e l -> inr (k_bmp be (b_height e)) = true) ->
+     get_bestp inr (map (k_bmp be) (map b_height l)) (map (fun e => (k_bmp be (b_height e), e)) l) = hd_error l).
+  { intros inr Hin. rewrite (get_best_spec (k_bmp be) b_height inr (fun _ => true)); auto.
+    - destruct l; reflexivity.
+    - apply (v_desc _ V).
+    - intros a c Ia Ic. apply LE; [specialize (R a Ia) | specialize (R c Ic)]; lia.
+    - intros a c Ia Ic. apply EQ; [specialize (R a Ia) | specialize (R c Ic)]; lia. }
+  assert (T : forall inr names, names = map (k_bmp be) (map b_height l) ->
+     (forall e, In e l -> inr (k_bmp be (b_height e)) = true) ->
+     get_bestp inr names (map (e_bmp be) l) = option_map (fun b => (b_height b, b_map b)) (hd_error l)).
+  { intros inr names -> Hin. specialize (G inr Hin). unfold get_bestp in *.
+    destruct (bestk inr (map (k_bmp be) (map b_height l))) as [k|]; [|destruct l; [reflexivity | discriminate]].
+    unfold e_bmp. clear Hin.
+    assert (A : forall (l0 : list block), assocp k (map (fun b => (k_bmp be (b_height b), (b_height b, b_map b))) l0)
+                = option_map (fun b => (b_height b, b_map b)) (assocp k (map (fun e => (k_bmp be (b_height e), e)) l0))).
+    { induction l0 as [|b r IH]; cbn; auto. destruct (key_eqb k (k_bmp be (b_height b))); auto. }
+    rewrite A, G. reflexivity. }
+  unfold load_last_map. rewrite tab_bmp. destruct be.
+  - unfold ldb_last. apply T; auto. rewrite map_map. unfold e_bmp. cbn [fst]. rewrite map_map. reflexivity.
+  - unfold rds_last. rewrite tab_zbmp. apply T; auto.
+    intros e I. specialize (R e I). unfold max_height in *. rewrite LE by (unfold max_height; lia).
+    replace (0 <=? b_height e) with true by (symmetry; apply Z.leb_le; lia). cbn [andb].
+    unfold k_bmp, rkey, rend. rewrite lex_le_app, lex_le_cons. apply dec21_le_nines.
+    + unfold max_height; lia.
+    + vm_compute. lia.
+Qed.
+
+Lemma load_proof_closed : forall be l, valid l -> load_last_proof be (tab_of be l) = hd_error (proofs_of l).
+Proof.
+  intros be l V.
+  assert (R : forall p, In p (proofs_of l) -> 0 <= p_bh p < max_height) by (intros; eapply proofs_bh_range; eauto).
+  assert (S : forall p, In p (proofs_of l) -> 0 <= p_sh p < max_height) by apply (v_srange _ V).
+  destruct (k_le be) as (_ & LE1 & LE2). destruct (k_eq be) as (_ & EQ1 & EQ2).
+  unfold load_last_proof. destruct be.
+  - unfold ldb_last. rewrite tab_sup, map_map. cbn [fst]. rewrite <- (map_map p_sh (k_sup Leveldb)).
+    rewrite (get_best_spec (k_sup Leveldb) p_sh all_keys (fun _ => true)); auto.
+    + destruct (proofs_of l); reflexivity.
+    + apply (v_sdesc _ V).
+    + intros a c Ia Ic. apply LE1; [specialize (S a Ia) | specialize (S c Ic)]; lia.
+    + intros a c Ia Ic. apply EQ1; [specialize (S a Ia) | specialize (S c Ic)]; lia.
+  - unfold rds_last. rewrite tab_sph, tab_zsph.
+    rewrite (get_best_spec (k_sph Redis) p_bh _ (fun _ => true)); auto.
+    + destruct (proofs_of l); reflexivity.
+    + apply proofs_desc, (v_desc _ V).
+    + intros e I. specialize (R e I). unfold max_height in *. rewrite LE2 by (unfold max_height; lia).
+      replace (0 <=? p_bh e) with true by (symmetry; apply Z.leb_le; lia). cbn [andb].
+      unfold k_sph, rkey, rend. rewrite lex_le_app, lex_le_cons. apply dec21_le_nines.
+      * unfold max_height; lia.
+      * vm_compute. lia.
+    + intros a c Ia Ic. apply LE2; [specialize (R a Ia) | specialize (R c Ic)]; lia.
+    + intros a c Ia Ic. apply EQ2; [specialize (R a Ia) | specialize (R c Ic)]; lia.
+Qed.
+
+(* closing and reopening either database changes nothing *)
+Theorem reopen_id : forall be chain, valid (rev chain) -> reopen be (run be chain) = run be chain.
+Proof.
+  intros be chain V. rewrite run_closed. unfold reopen. cbn [d_tab d_mem].
+  destruct (mem_last _ V) as (A & B & C).
+  rewrite load_map_closed, load_proof_closed, tab_pol by auto.
+  f_equal. destruct (mem_of (rev chain)) as [ml mp mpol]. cbn in *. subst. reflexivity.
+Qed.
+
+(* ---------------------------------------------------------------- statements used by Props *)
+
+Theorem backends_agree_after_reopen : forall merges r, valid (rev merges) -> read_in_domain r ->
+  do_read Redis (reopen Redis (run Redis merges)) r = do_read Leveldb (reopen Leveldb (run Leveldb merges)) r.
+Proof. intros. rewrite !reopen_id by auto. apply backends_agree; auto. Qed.
+
+Theorem key_encodings_preserve_order : forall a c, 0 <= a <= max_height -> 0 <= c <= max_height ->
+  lex_le (be8 a) (be8 c) = (a <=? c) /\ lex_le (dec21 a) (dec21 c) = (a <=? c)
+  /\ lex_le (dec21 a) (nines (Z.to_nat redis_end_nines_blockmaps)) = true
+  /\ lex_le (dec21 a) (nines (Z.to_nat redis_end_nines_suffrageproofs)) = true.
+Proof.
+  intros a c Ha Hc. repeat split; auto using be8_le, dec21_le; apply dec21_le_nines; auto; vm_compute; lia.
+Qed.
+
+Theorem generated_constants : height_fixed_width = 21 /\ redis_end_nines_blockmaps = 20
+  /\ redis_end_nines_suffrageproofs = 20
+  /\ NoDup [leveldb_prefix_blockmap; leveldb_prefix_suffrageproof; leveldb_prefix_suffrageproof_by_blockheight;
+            leveldb_prefix_state; leveldb_prefix_instate_operation; leveldb_prefix_known_operation]
+  /\ NoDup [redis_prefix_blockmap; redis_prefix_suffrageproof; redis_prefix_suffrageproof_by_blockheight;
+            redis_prefix_state; redis_prefix_instate_operation; redis_prefix_known_operation]
+  /\ redis_zkey_blockmaps <> redis_zkey_suffrageproofs_by_blockheight.
+Proof.
+  repeat split; try reflexivity; try discriminate;
+    repeat (constructor; [cbn; intuition discriminate|]); constructor.
+Qed.
